@@ -176,6 +176,38 @@ func traceVerbatimV(p *Program, v ssa.Value, kind string, seen map[ssa.Value]boo
 		case cal.Name() == "FormatDuration" && cal.Pkg == p.SPkg && kind == "DurationValue":
 			return traceVerbatim(p, x.Call.Args[0], kind, depth+1)
 		}
+		if cal.Pkg == p.SPkg && len(cal.Blocks) > 0 && len(seen) < 200 {
+			// an in-package helper: what it returns must itself be verbatim,
+			// and so must what it is given
+			worst, why := 0, "through "+cal.Name()
+			for _, b := range cal.Blocks {
+				ret, ok := b.Instrs[len(b.Instrs)-1].(*ssa.Return)
+				if !ok {
+					continue
+				}
+				for _, res := range ret.Results {
+					if k, ok := res.(*ssa.Const); ok && k.Value == nil {
+						continue
+					}
+					if !types.Identical(res.Type(), x.Type()) {
+						if tup, ok := x.Type().(*types.Tuple); !ok || tup.Len() == 0 || !types.Identical(res.Type(), tup.At(0).Type()) {
+							continue
+						}
+					}
+					w, st := traceVerbatim(p, res, kind, 0)
+					if st > 0 && (worst == 0 || st == 1) {
+						worst, why = st, w
+					}
+				}
+			}
+			for _, a := range x.Call.Args {
+				w, st := traceVerbatim(p, a, kind, 0)
+				if st > 0 && (worst == 0 || st == 1) {
+					worst, why = st, w
+				}
+			}
+			return why, worst
+		}
 		return "the value passes through " + cal.String(), 1
 	}
 	return fmt.Sprintf("value of shape %T", v), 2
